@@ -256,9 +256,13 @@ public:
   std::vector< uint32_t > cell_local; // global cell -> cell index in the subgrid
   std::string error;                  // non-empty: the driver could not be set up
   std::vector< uint32_t > last_order; // task sequence of the last step
+  std::vector< HydroDensitySubGrid * > sub_ptr; // original subgrids by index
+  size_t cells_per_sub;
+  std::vector< uint32_t > ready_buf; // scratch of step()
+  std::vector< char > done_buf;
 
   explicit StepDriver(const Geometry &g)
-      : geo(g), grid(nullptr), tasks(nullptr), boundaries(nullptr), ntask(0) {
+      : geo(g), grid(nullptr), tasks(nullptr), boundaries(nullptr), ntask(0), cells_per_sub(0) {
     if (!geo.valid()) {
       error = "invalid geometry";
       return;
@@ -305,6 +309,9 @@ public:
     for (size_t i = 0; i < ncell; ++i)
       if (cell_sub[i] == 0xffffffffu)
         error = "cell without subgrid";
+    for (size_t i = 0; i < nsub; ++i)
+      sub_ptr.push_back(&*grid->get_subgrid(i));
+    cells_per_sub = ncell / nsub;
   }
   ~StepDriver() {
     delete tasks;
@@ -314,7 +321,7 @@ public:
   StepDriver(const StepDriver &) = delete;
   StepDriver &operator=(const StepDriver &) = delete;
 
-  HydroDensitySubGrid &subgrid(const size_t i) { return *grid->get_subgrid(i); }
+  HydroDensitySubGrid &subgrid(const size_t i) { return *sub_ptr[i]; }
   HydroVariables &cell(const size_t global_index) {
     return subgrid(cell_sub[global_index])._hydro_variables[cell_local[global_index]];
   }
@@ -347,8 +354,42 @@ public:
     return dt;
   }
 
-  void totals(long double t[5]) { conserved_totals_from_grid(*grid, t); }
-  void state(std::vector< double > &s) { state_in_global_cell_order(*grid, s); }
+  /// totals / state through the (verified) cell map; same results as
+  /// conserved_totals_from_grid / state_in_global_cell_order (checked in the
+  /// constructor and by observation_functions_agree())
+  void totals(long double t[5]) {
+    for (int j = 0; j < 5; ++j)
+      t[j] = 0.L;
+    const size_t nsub = sub_ptr.size();
+    for (size_t is = 0; is < nsub; ++is) {
+      const HydroVariables *hv = sub_ptr[is]->_hydro_variables;
+      for (size_t i = 0; i < cells_per_sub; ++i)
+        for (int j = 0; j < 5; ++j)
+          t[j] += hv[i].conserved(j);
+    }
+  }
+  void state(std::vector< double > &s) {
+    const size_t ncell = cell_sub.size();
+    s.resize(10 * ncell);
+    for (size_t g = 0; g < ncell; ++g) {
+      const HydroVariables &hv = sub_ptr[cell_sub[g]]->_hydro_variables[cell_local[g]];
+      for (int j = 0; j < 5; ++j) {
+        s[10 * g + j] = hv.conserved(j);
+        s[10 * g + 5 + j] = hv.primitives(j);
+      }
+    }
+  }
+  /// the generic observation functions give exactly the same totals / state
+  bool observation_functions_agree() {
+    long double a[5], b[5];
+    totals(a);
+    conserved_totals_from_grid(*grid, b);
+    std::vector< double > s1, s2;
+    state(s1);
+    state_in_global_cell_order(*grid, s2);
+    return std::memcmp(a, b, sizeof(a)) == 0 && s1.size() == s2.size() &&
+           std::memcmp(s1.data(), s2.data(), s1.size() * sizeof(double)) == 0;
+  }
 
   /// One hydro step: reset_hydro_tasks, then execute_task on every task in a
   /// dependency respecting order.
@@ -360,9 +401,11 @@ public:
     for (auto it = grid->begin(); it != grid->original_end(); ++it)
       reset_hydro_tasks(T, *it);
     last_order.clear();
-    std::vector< uint32_t > ready;
-    std::vector< char > done(ntask, 0);
+    std::vector< uint32_t > &ready = ready_buf;
+    std::vector< char > &done = done_buf;
+    ready.clear();
     ready.reserve(ntask);
+    done.assign(ntask, 0);
     size_t head = 0; // FIFO head
     if (policy != ORDER_SCAN) {
       // the initial queue content of the real loop
